@@ -64,34 +64,34 @@ CLAIMS = {
         "with every subset of unreachable backups (RESP gate) and below-quorum members on every run.",
    note=TB + "INTERNAL.NODE.UPDATEROUTING is exempt from the member-count precondition by design (stated in the theorem); a Get of a key that exists nowhere "
         "returns ErrReadQuorum when RQ>=2 (pinned by an upstream test, stated in C05_read_iff).",
-   ref="DESIGN.md 9 C05, fixes/DESIGN-C05-C06.md"),
+   ref="DESIGN.md 9 C05, docs/DESIGN-C05-C06.md"),
  "C06": dict(
    text="Theorems: sortVersions is a descending permutation whose head is the last maximal element; Get returns one of the copies with maximal timestamp; "
         "merging fragments in any permutation with any re-deliveries keeps per key a copy of maximal timestamp (exactly the newest one when timestamps are "
         "distinct); read-repair brings the owner's and every reachable stale backup copy to the winner. Executed on real clusters over an exhaustive small "
         "space of copy layouts (ties, missing copies, RR on/off) and all merge orders of 3 fragments on every run.",
    note=TB + "the read-repair/Delete race (D24) is an open known finding with a _refuted theorem and a deterministic witness; msgpack/roaring serialisation are oracles.",
-   ref="DESIGN.md 9 C06, fixes/DESIGN-C05-C06.md"),
+   ref="DESIGN.md 9 C06, docs/DESIGN-C05-C06.md"),
  "C16": dict(
    text="Theorems: every parser of internal/protocol is total (never indexes past the argument vector, every option loop terminates within length+1 iterations) "
         "for every argument vector; mux+wrapper dispatch is total; handlers reject out-of-range partition ids before any dereference. Executed against the real "
         "parsers (in-process, recover+watchdog) on all vectors up to a bound over a 24-token alphabet and against a real member in a child process over TCP "
         "(command vectors, crafted payloads, random byte streams) on every run.",
    note=TB + "strconv float parsing is an oracle; ASCII case folding only; redcon's RESP reader is a dependency (open known finding: multibulk-count spin).",
-   ref="DESIGN.md 9 C16, fixes/DESIGN-C16.md"),
+   ref="DESIGN.md 9 C16, docs/DESIGN-C16.md"),
  "C17": dict(
    text="Theorems: entry encode/decode round trip for every well-formed entry; every integer width/signedness reads back equal through the RESP text codec and "
         "out-of-range text is rejected; bool/duration/bytes identity; byte-level table: get-after-put and get-after-put_raw return the entry, other hkeys unchanged, "
         "too-long keys and too-large entries are rejected leaving the table unchanged. Executed: encoder/scan differential, typed round trips through 4 client "
         "paths with replication and after migration, boundary keys and entry sizes on every run.",
    note=TB + "floats, time.Time and BinaryMarshaler are tested only (strconv/time are oracles).",
-   ref="DESIGN.md 9 C17, fixes/DESIGN-C17-C18.md"),
+   ref="DESIGN.md 9 C17, docs/DESIGN-C17-C18.md"),
  "C18": dict(
    text="Theorems over a heap model (blocks and Go slice descriptors): for all runs mixing store operations and client writes, blocks reachable from returned "
         "handles and slab blocks are disjoint; a returned value never changes and writing into it never changes the store or other handles; Put arguments may be "
         "reused. Executed on the real engine and clusters (embedded owner/non-owner, cluster client, GetPut, iterator, compaction, table recycling, migration).",
    note=TB + "Go's memory model (copy semantics of make/copy) is assumed; FutureGet.Result() called twice is not exercised.",
-   ref="DESIGN.md 9 C18, fixes/DESIGN-C17-C18.md"),
+   ref="DESIGN.md 9 C18, docs/DESIGN-C17-C18.md"),
  "C09": dict(
    text="Theorems over Model/DMap.v with the clock as input: an expired, not yet evicted entry is indistinguishable from an absent one for every operation (C09_expired_is_absent: a simulation between states that differ only in expired entries), background eviction passes placed anywhere change no result (C09_eviction_is_invisible), a key with relative expiry ms set at t is readable at every t'<t+ms and at no t'>=t+ms, and the ttl rules (plain Put/GetPut reset, Incr/Decr keep, Expire replaces and keeps the value). Executed on real clusters: every ttl source x probe x client path around a 240 ms deadline, with eviction forced or not.",
    note=TB + "real clocks are compared with a 40 ms margin (closer runs are discarded and counted); durations are multiples of 1 ms; MaxIdleDuration is C10's (no_idle hypothesis).",
@@ -123,11 +123,11 @@ CLAIMS = {
         "clusters over raw RESP on exhaustive (13-op alphabet, length<=3/4) and random scripts on every run.",
    note=TB + "tidwall/match is an oracle (table per scenario); the btree's ordered iteration is modelled by the set it selects; ps.mu makes each "
         "operation atomic (Go runtime); concurrent publishers are judged by the python predicate only.",
-   ref="DESIGN.md 9 C14, fixes/DESIGN-C14.md"),
+   ref="DESIGN.md 9 C14, docs/DESIGN-C14.md"),
  "C15": dict(
    text='Theorems: for every Put configuration (at most one of EX/PX/EXAT/PXAT, at most one of NX/XX) and for Expire/PExpire, Lock EX|PX, Lease/PLease, Scan options, Get/GetPut RW, Destroy LC, GetEntry/DelEntry RC, the server parses the command the client-side builders produce into exactly the same configuration (C15_*_roundtrip over Model/Proto.v), and the owner-side semantics (Model/DMap.v) depends on the decoded configuration only. Executed: exhaustive grid of operations x options x prior state x 7 client paths (embedded owner/non-owner/backup, cluster client, raw RESP, pipeline) on real clusters, judged by one reference semantics for all paths and compared with the model.',
    note=TB + 'strconv float/int formatting enter the round-trip theorems as explicit hypotheses (oracles); durations are multiples of 1 ms; the handler-side two-switch decoding is covered by the differential, not yet by a theorem.',
-   ref='DESIGN.md 9 C15, fixes/DESIGN-C16.md'),
+   ref='DESIGN.md 9 C15, docs/DESIGN-C16.md'),
  "C20": dict(
    text="Theorems: in every reachable state (any sequence of Put/PutRaw/Delete/UpdateTTL/Compaction) each table satisfies inuse+garbage=offset<=allocated "
         "with inuse = bytes of live records (superseded bytes are garbage on both write paths); Put allocates at most one table; compaction makes "
